@@ -40,7 +40,7 @@ every larger stack size `S'` the emitted machine performs exactly the same event
 program, argument vector, word size and build mode. -/
 theorem core_larger_stack_same (w S S' : Nat) (ck : Bool) (hS : S ≤ S') (args : List Int) (pr : Core.CProg) (hw : 2 ≤ w)
     (hB : Core.progLen ck pr + stdlibLength < 256 ^ w)
-    (hSE : 5 * w + S' * w + args.length * w + w < 256 ^ w)
+    (hSE : 5 * w + S' * w + args.length * w + w + Core.regsLen w pr < 256 ^ w)
     (hwf : Core.wfProg pr = true) (hlen : args.length = pr.params.length)
     (fuel : Nat) (env' : Core.Env) (tr : List Ev) (res : Core.Res)
     (hex : Core.srcRun ⟨w, S, ck⟩ fuel args pr = some (env', tr, res))
@@ -53,7 +53,7 @@ theorem core_larger_stack_same (w S S' : Nat) (ck : Bool) (hS : S ≤ S') (args 
         ⟨tntPc (Core.progLen ck pr), m'⟩ := by
   have hSw := Nat.mul_le_mul_right w hS
   obtain ⟨m, h, _⟩ := Core.core_correct ⟨w, S, ck⟩ args pr hw hB
-    (by show 5 * w + S * w + args.length * w + w < 256 ^ w; omega) hwf hlen fuel env' tr res hex (fun h => h.elim hck (fun h => absurd h hno)) (fun h => absurd h hno) hroom
+    (by show 5 * w + S * w + args.length * w + w + Core.regsLen w pr < 256 ^ w; omega) hwf hlen fuel env' tr res hex (fun h => h.elim hck (fun h => absurd h hno)) (fun h => absurd h hno) hroom
   obtain ⟨m', h', _⟩ := Core.core_correct ⟨w, S', ck⟩ args pr hw hB hSE hwf hlen fuel env' tr res
     (Core.srcRun_stack_mono w S S' ck hS fuel args pr _ _ _ hex hno) (fun h => h.elim hck (fun h => absurd h hno)) (fun h => absurd h hno)
     (by show Core.pkS w (Core.entryOff w pr.params) pr.body ≤ S' * w + args.length * w + w; omega)
